@@ -296,6 +296,40 @@ func asConcurrentSiblingFailures(rng *rand.Rand) (*asScenario, []asStep) {
 	return sc, steps
 }
 
+// asKillDuringGracefulRestart: an actor fails, its supervisor decides GracefulRestart, the actor is tearing down and still
+// waits for its child when a Kill (poison or immediate) aimed at it arrives: it must terminate, not come back.
+// A second family: jobs of the scheduler under a re-used reference (Once, Cancel, Loop), then the owner is killed.
+func asKillDuringGracefulRestart(rng *rand.Rand) (*asScenario, []asStep) {
+	par := map[string]string{"t": "root", "f": "t", "c": "f", "b": "t"}
+	sc := &asScenario{Parent: par, Names: []string{"b", "c", "f", "t"}, Cfg: asConfig{Decision: map[string]string{}, Strategy: map[string]string{}}}
+	for _, n := range sc.Names {
+		sc.Cfg.Decision[n] = []string{"restart", "grestart", "resume"}[rng.Intn(3)]
+		sc.Cfg.Strategy[n] = []string{"ofo", "ofa"}[rng.Intn(2)]
+	}
+	if rng.Intn(2) == 0 {
+		// scheduler family
+		steps := []asStep{{A: "spawn", X: "t"}, {A: "settle"}}
+		seq := [][]string{{"sched-once", "sched-cancel", "sched-loop"}, {"sched-loop"}, {"sched-once", "sched-loop"}, {"sched-loop", "sched-cancel", "sched-loop"}}[rng.Intn(4)]
+		for _, op := range seq {
+			steps = append(steps, asStep{A: "tell", X: "f", Op: op}, asStep{A: "settle"})
+		}
+		steps = append(steps, asStep{A: "kill", X: []string{"f", "t"}[rng.Intn(2)], Poison: rng.Intn(2) == 0}, asStep{A: "settle"})
+		for i := 0; i < 3; i++ {
+			steps = append(steps, asStep{A: "tell", X: "b", Op: "nop"}, asStep{A: "settle"})
+		}
+		return sc, steps
+	}
+	sc.Cfg.Decision["t"] = "grestart"
+	sc.Cfg.Strategy["t"] = "ofo"
+	steps := []asStep{{A: "spawn", X: "t"}, {A: "turn", X: "t"}, {A: "turn", X: "b"}, {A: "turn", X: "f"}, {A: "turn", X: "c"},
+		{A: "tell", X: "f", Op: "fail"}, {A: "turn", X: "f"}, {A: "turn", X: "t"}, {A: "turn", X: "f"},
+		{A: "kill", X: "f", Poison: rng.Intn(3) > 0}, {A: "random"}}
+	for i := 0; i < rng.Intn(3); i++ {
+		steps = append(steps, asStep{A: "tell", X: []string{"b", "f", "t"}[rng.Intn(3)], Op: "nop"})
+	}
+	return sc, steps
+}
+
 func asCheck(c *core.Ctx, plan asPlan) {
 	dir, err := c.SpecDir("actorsys")
 	if err != nil {
@@ -383,11 +417,22 @@ func asCheck(c *core.Ctx, plan asPlan) {
 			sc := b.Scen
 			// top-level spawns first, the remaining driver operations are interleaved randomly with turns
 			var first, rest []asStep
-			for _, s := range b.Steps {
-				if s.A == "spawn" {
-					first = append(first, s)
-				} else {
-					rest = append(rest, s)
+			marker := -1
+			for k, s := range b.Steps {
+				if s.A == "random" {
+					marker = k
+				}
+			}
+			if marker >= 0 {
+				// a directed scenario: the steps before the marker are a fixed schedule (explicit turns), the rest is random
+				first, rest = b.Steps[:marker], b.Steps[marker+1:]
+			} else {
+				for _, s := range b.Steps {
+					if s.A == "spawn" {
+						first = append(first, s)
+					} else {
+						rest = append(rest, s)
+					}
 				}
 			}
 			results[i] = runActorScenario(&sc, first, c.Seed*7907+int64(i), rest)
@@ -464,7 +509,8 @@ func init() {
 			rule: base + "Judged by FateMon."})
 	})
 	register("C06", func(c *core.Ctx) {
-		asCheck(c, asPlan{prop: "C06", monitors: []string{"KillMon"}, mc: t3, gen: g3, ops: append(append([][2]string{{"sub", "A"}, {"sub", "B"}}, asOpsBasic...), asOpsWatch...),
+		asCheck(c, asPlan{prop: "C06", monitors: []string{"KillMon"}, mc: t3, gen: g3, directed: asKillDuringGracefulRestart,
+			ops:  append(append([][2]string{{"sub", "A"}, {"sub", "B"}, {"sched-loop", ""}, {"sched-once", ""}, {"sched-cancel", ""}}, asOpsBasic...), asOpsWatch...),
 			rule: base + "Judged by KillMon. Plus an ungated run in which a parent re-spawns its child under the same name the moment it is told of the child's termination."})
 		if c.IsBroken() {
 			return
